@@ -113,7 +113,7 @@ fn check(ctx: &mut Ctx, pts: &[PT], sw: u32, sh: u32, dw: u32, dh: u32, cx: Crop
 pub fn prop(tier: Tier, _seed: u64) -> Prop {
     let mut p = Prop::new("C11");
     let bes = backends();
-    let (smax, dmax, full): (u32, u32, u32) = tier.pick((8, 12, 4), (16, 20, 5));
+    let (smax, dmax, full): (u32, u32, u32) = tier.pick((7, 10, 4), (16, 20, 5));
 
     // ---- one axis varying at a time, full CROP1 x CROP1
     let dims = vec![smax as u64, smax as u64, 2 * dmax as u64, 15, 15];
